@@ -8,11 +8,17 @@ LEVEL_TEXT = ("Template.tla states the property as one left-to-right substitutio
               "group index first, inserted text tagged and never rescanned); TLC enumerates templates x group counts x value "
               "profiles for both sites, the real resolveSource / resolveDest answer every case and must give the spec's "
               "output wherever the statement decides it; random templates and values (also through the real "
-              "staticsources.Handler run loop) are judged by TLC (TraceTemplate.tla)")
-LEVEL_NOTE = ("bounded: templates of <= 3 pieces (thorough: 4) out of 13, group counts {0,1,11} (thorough {0,1,2,11}), 2-3 value profiles incl. "
+              "staticsources.Handler run loop) are judged by TLC (TraceTemplate.tla); life-cycle stage: every operation "
+              "sequence of TemplateLife.tla (Start(query) / Stop / ReloadConf(template) / instance failure / retry) and random "
+              "ones are replayed on a real staticsources.Handler with an injected source instance, and TLC demands that "
+              "every Run received the substitution of the template in force with the query of THAT start")
+LEVEL_NOTE = ("bounded: templates of <= 3 pieces (thorough: 4) out of 13, group counts {1,11} (thorough {0,1,2,11}; no groups = nil matches also in the random runs), 2-3 value profiles incl. "
               "values that look like placeholders; excluded from the verdict and counted: $G<digits> without such a group "
               "(ambiguous), placeholders the site does not document, placeholder shapes assembled across an insertion "
-              "boundary; the forward destination is exercised through resolveDest only (no DestHandler.runOnce)")
+              "boundary; life-cycle scripts: 4 operations / 1 failure (thorough 6 / 2), 3 templates x 3 queries, plus random "
+              "scripts; capture groups are fixed for the life of a handler (the path is recreated when they change); the "
+              "forward destination is exercised through resolveDest only: DestHandler.runOnce recomputes it on every run "
+              "from fields that never change during the handler's life (Conf.Dest, PathName, Matches), nothing is cached")
 TECHNIQUE = "TLC function table replayed on the real code + TLC trace validation of random records"
 
 PKG_SRC = "./internal/staticsources/"
@@ -40,33 +46,67 @@ def run(ctx):
         nonlocal t0
         phase[name] = round(time.time() - t0, 1)
         t0 = time.time()
+    # life-cycle scripts for the real Handler: generated in a second TLC run that overlaps with the table run
+    import threading
+    ctx.specdir()
+    lifebox = {}
+
+    def gen_life():
+        try:
+            lifebox["r"] = vf.mc(ctx, "TemplateLife", ctx.pick("TemplateLife_q.cfg", "TemplateLife_t.cfg"),
+                                 workers=min(vf.NCPU, 4), timeout=1500, java_opts=["-Xmx8g"])
+        except BaseException as e:  # re-raised in the main thread
+            lifebox["err"] = e
+    th = threading.Thread(target=gen_life)
+    th.start()
+
     cfgs = ctx.pick(["Template_gen.cfg"], ["Template_gen3all.cfg", "Template_gen4.cfg"])
     cases = []
     seen = set()
-    for cfg in cfgs:
-        r = vf.mc(ctx, "Template", cfg, workers=min(vf.NCPU, 8), timeout=1500, java_opts=["-Xmx8g"])
-        for c in r.tagged("CASE"):
-            key = (c["site"], c["tmpl"], c["n"], tuple(c["g"]), c["path"], c["query"])
-            if key in seen:
-                continue
-            seen.add(key)
-            cases.append({"id": len(cases),
-                          "in": {"site": c["site"], "tmpl": c["tmpl"], "g": c["g"], "path": c["path"], "query": c["query"]},
-                          "exp": {"out": c["exp"]}, "l1": c["l1"],
-                          "open": [k for k in ("amb", "undef", "straddle") if c[k]]})
-    lap("tlc_gen")
-    if len(cases) < 20000:
+    try:
+        for cfg in cfgs:
+            r = vf.mc(ctx, "Template", cfg, workers=min(vf.NCPU, 8), timeout=1500, java_opts=["-Xmx8g"])
+            for c in r.tagged("CASE"):
+                key = (c["site"], c["tmpl"], c["n"], tuple(c["g"]), c["path"], c["query"])
+                if key in seen:
+                    continue
+                seen.add(key)
+                cases.append({"id": len(cases),
+                              "in": {"site": c["site"], "tmpl": c["tmpl"], "g": c["g"], "path": c["path"], "query": c["query"]},
+                              "exp": {"out": c["exp"]}, "l1": c["l1"],
+                              "open": [k for k in ("amb", "undef", "straddle") if c[k]]})
+    except BaseException:
+        th.join()
+        raise
+    lap("tlc_gen_table")
+    if len(cases) < 15000:
+        th.join()
         raise vf.Infra("generator produced only %d cases" % len(cases))
     cf = vf.write_ndjson(ctx.path("cases.ndjson"), [{"id": c["id"], "in": c["in"]} for c in cases])
     o1, o2 = ctx.path("obs_src.ndjson"), ctx.path("obs_dst.ndjson")
     t1, t2 = ctx.path("trace_src.ndjson"), ctx.path("trace_dst.ndjson")
     # one go test run per package: replay of the table + random records (written to VERIF_OUT2)
-    vf.gotest_ok(ctx, PKG_SRC, "^TestVerif_C42_(Replay|Trace)$", cases=cf, out=o1, env={"VERIF_OUT2": t1},
-                 params={"RUNS": ctx.pick(1000, 20000), "HRUNS": ctx.pick(60, 1000)})
-    vf.gotest_ok(ctx, PKG_DST, "^TestVerif_C42_(Replay|Trace)$", cases=cf, out=o2, env={"VERIF_OUT2": t2},
-                 params={"RUNS": ctx.pick(1000, 20000)})
+    try:
+        vf.gotest_ok(ctx, PKG_DST, "^TestVerif_C42_(Replay|Trace)$", cases=cf, out=o2, env={"VERIF_OUT2": t2},
+                     params={"RUNS": ctx.pick(800, 20000)})
+    finally:
+        th.join()
+    lap("go_forward")
+    if "err" in lifebox:
+        raise lifebox["err"]
+    scripts = [dict(x, id=i) for i, x in enumerate(lifebox["r"].tagged("SCRIPT"))]
+    if len(scripts) < 1000:
+        raise vf.Infra("life-cycle generator produced only %d scripts" % len(scripts))
+    lf = vf.write_ndjson(ctx.path("life_scripts.ndjson"),
+                         [{k: x[k] for k in ("id", "t0", "g", "path", "ops")} for x in scripts])
+    t3 = ctx.path("trace_life.ndjson")
+    # + life-cycle scripts on the real Handler (VERIF_LIFE -> VERIF_OUT3; every retry waits the handler's 5 s pause)
+    vf.gotest_ok(ctx, PKG_SRC, "^TestVerif_C42_(Replay|Trace|Life)$", cases=cf, out=o1,
+                 env={"VERIF_OUT2": t1, "VERIF_LIFE": lf, "VERIF_OUT3": t3},
+                 params={"RUNS": ctx.pick(800, 20000), "HRUNS": ctx.pick(40, 1000),
+                         "RLIFE": ctx.pick(150, 3000), "RFAILS": ctx.pick(1, 2)})
     obs = {o["id"]: o["obs"] for o in vf.read_ndjson(o1) + vf.read_ndjson(o2)}
-    lap("go_replay_and_trace")
+    lap("go_staticsources_with_life")
     nopen = ndrift = 0
     openkinds = {}
     bycause = {}
@@ -100,20 +140,73 @@ def run(ctx):
         ctx.sample({"excluded_ambiguous": amb[len(amb) // 2]["in"], "single_pass": amb[len(amb) // 2]["exp"]["out"],
                     "real": obs[amb[len(amb) // 2]["id"]]["out"]})
 
+    # life-cycle stage, scripts of the bounded model: TLC's table says what every run has to receive
+    life = vf.read_ndjson(t3)
+    byid = {x["id"]: x for x in life}
+    nlife_runs = 0
+
+    def life_violation(x, run, tmpl, query, exp, got, l1):
+        cz = cause(tmpl, got, l1)
+        bycause[cz] = bycause.get(cz, 0) + 1
+        ops = " ".join(o["k"] + ("(%r)" % o["v"] if o["k"] in ("Start", "Reload") else "") for o in x["ops"])
+        ctx.violation({"in": {"site": "source", "t0": x["t0"], "g": x["g"] or [], "path": x["path"], "ops": x["ops"]},
+                       "run": run, "exp": exp, "obs": got, "via": "handler-life", "cause": cz},
+                      "staticsources.Handler (template %r, groups %s) driven through %s: run %d of the source instance%s: "
+                      "expected %r, the instance received %r [cause: %s]" % (
+                          x["t0"], x["g"] or [], ops, run,
+                          "" if tmpl is None else " has to be resolved from template %r and the query %r of its start" % (tmpl, query),
+                          exp, got, cz))
+
+    for sc in scripts:
+        x = byid.get(sc["id"])
+        if x is None:
+            raise vf.Infra("harness replayed no life-cycle script %d" % sc["id"])
+        if len(x["runs"]) != len(sc["exp"]):
+            raise vf.Infra("life-cycle script %d %s: %d runs observed, %d expected" % (
+                sc["id"], sc["ops"], len(x["runs"]), len(sc["exp"])))
+        for k, (r, e) in enumerate(zip(x["runs"], sc["exp"])):
+            nlife_runs += 1
+            if r["resolved"] != e["l1"]:
+                ndrift += 1
+            if not e["open"] and r["resolved"] != e["out"]:
+                life_violation(x, k + 1, None, None, e["out"], r["resolved"], e["l1"])
+    ctx.set("life_scripts_from_tlc", len(scripts))
+    ctx.set("life_scripts_random", len(life) - len(scripts))
+    mid = scripts[len(scripts) // 2]
+    ctx.sample({"life_script": {"t0": mid["t0"], "ops": mid["ops"]},
+                "runs_received": [r["resolved"] for r in byid[mid["id"]]["runs"]]})
+
     # TV: random templates / values, both sites, and through the real Handler run loop
     raw = vf.read_ndjson(t1) + vf.read_ndjson(t2)
     for x in raw:
         if ("".join(x["tmpl"]), ["".join(g) for g in x["g"]], "".join(x["path"]), "".join(x["query"]), "".join(x["out"])) != \
                 (x["tmplStr"], x["gStr"], x["pathStr"], x["queryStr"], x["outStr"]):
             raise vf.Infra("harness record %s/%d: characters and strings disagree" % (x["site"], x["run"]))
-    recs = [{k: x[k] for k in ("site", "tmpl", "g", "path", "query", "out")} for x in raw]
+    recs = [dict({k: x[k] for k in ("site", "tmpl", "g", "path", "query", "out")}, kind="func") for x in raw]
+    ch = list
+    for x in life:
+        if x["src"] != "random":
+            continue            # judged above against TLC's table
+        nlife_runs += len(x["runs"])
+        raw.append(x)
+        recs.append({"kind": "life", "t0": ch(x["t0"]), "g": [ch(v) for v in (x["g"] or [])], "path": ch(x["path"]),
+                     "ops": [{"k": o["k"], "v": ch(o["v"])} for o in x["ops"]],
+                     "runs": [{"resolved": ch(r["resolved"]), "conf": ch(r["conf"])} for r in x["runs"]]})
     tvopen = 0
     chunk = 20000
     for i in range(0, len(recs), chunk):
         vf.write_ndjson(ctx.specdir() + "/C42_trace.ndjson", recs[i:i + chunk])
         tv = vf.tlc(ctx, "TraceTemplate", "TraceTemplate.cfg", workers=1, timeout=1500, java_opts=["-Xmx8g"])
+        if tv.tagged("MISCOUNT"):
+            m = tv.tagged("MISCOUNT")[0]
+            raise vf.Infra("life-cycle script %s: %d runs observed, the fold of its operations has %d" % (
+                raw[i + m["l"] - 1]["ops"], m["got"], m["want"]))
         for bad in tv.tagged("BAD"):
             x = raw[i + bad["l"] - 1]
+            if "run" in bad:
+                life_violation(x, bad["run"], bad["tmpl"], bad["query"], bad["exp"],
+                               x["runs"][bad["run"] - 1]["resolved"], bad["l1"])
+                continue
             cz = cause(x["tmplStr"], x["outStr"], bad["l1"])
             bycause[cz] = bycause.get(cz, 0) + 1
             ctx.violation({"in": {"site": x["site"], "tmpl": x["tmplStr"], "g": x["gStr"], "path": x["pathStr"],
@@ -126,13 +219,17 @@ def run(ctx):
     lap("tlc_trace_validation")
     ctx.set("phase_wall_s", phase)
     ctx.set("traces_validated_against_impl", len(cases) + len(recs))
+    ctx.set("life_runs_judged", nlife_runs)
     ctx.set("trace_records", len(recs))
     ctx.set("trace_records_excluded", tvopen)
-    ctx.set("trace_records_via_handler", sum(1 for x in raw if x["via"] == "handler"))
+    ctx.set("trace_records_via_handler", sum(1 for x in raw if x.get("via") == "handler"))
     ctx.set("drift_events", ndrift)
     ctx.set("violations_by_cause", bycause)
     if ndrift:
         ctx.note("%d observations differ from layer 1 (chain of ReplaceAll) — DRIFT, not a verdict" % ndrift)
+    ctx.assume("the capture groups of a handler do not change during its life (core recreates the path when they do); "
+               "'template in force' = the source of the last configuration the handler was given before the instance was "
+               "(re)created")
     ctx.sample({"trace_record": {k: raw[0][k] for k in ("site", "tmplStr", "gStr", "pathStr", "queryStr", "outStr")}})
     ctx.assume("capture groups and path names contain no '$' (conf.IsValidPathName); only the query may")
     ctx.assume("placeholder sets per site are taken from mediamtx.yml: source = $G<n>, $MTX_QUERY; forward = $MTX_PATH, $G<n>")
